@@ -353,6 +353,20 @@ def build(tier, seed):
                             cases.append({
                                 'model': model, 'ybar': ybar, 'y': y,
                                 'params': list(params), 'p': p, 'sens': sens})
+    # negative outputs whose documented standard deviation is still positive
+    # (constant + relative: sigma_base + sigma_rel * ybar > 0)
+    for n in (1, 2):
+        for ybar_n in itertools.permutations([-2.0, -0.5, 1.5], n):
+            for y_n in _tuples(obs_mixed, n)[:4]:
+                for sb, sr in ((1.0, 0.1), (0.8, 0.3), (2.0, 0.5)):
+                    if min(sb + sr * v for v in ybar_n) <= 0:
+                        continue
+                    for p in (0, 2):
+                        cases.append({
+                            'model': 'CM', 'ybar': list(ybar_n), 'y': list(y_n),
+                            'params': [sb, sr], 'p': p,
+                            'sens': vals.reals('c04.S.neg', n * p, -2.0, 2.0, seed)
+                            if p else []})
     for model in ref.MODELS:
         for n in (1, 2, 3):
             for ybar_i in itertools.permutations([1, 2, 4], n):
@@ -437,8 +451,8 @@ def build(tier, seed):
                          'reduced': 20},
         'assumptions': [
             'outputs for which the documented standard deviation would be '
-            'non-positive (M, CM with negative outputs) are outside the documented '
-            'density and are not enumerated',
+            'non-positive (M with negative outputs, CM with sigma_base + sigma_rel '
+            'ybar <= 0) are outside the documented density and are not enumerated',
             'values: finite alphabets of generic reals rotated by VERIF_SEED'],
         'exhaustive': True,
     }
